@@ -6,6 +6,7 @@ import (
 	"fmt"
 	"sort"
 	"strings"
+	"time"
 
 	"github.com/6tail/lunar-go/SolarUtil"
 	"github.com/6tail/lunar-go/calendar"
@@ -20,6 +21,7 @@ func init() {
 			"conventional sign start days: 3/21 4/20 5/21 6/22 7/23 8/23 9/23 10/24 11/23 12/22 1/20 2/19",
 			"festival names and their month-day / month-k-weekday keys are read from the library's exported tables (open data); occurrences are counted over existing days with the RefCal weekday",
 		},
+		First: c20First,
 		Gen: func(g *Gen) []Case {
 			// the per-year cases are spread over the worker pool in ascending order; two more cases walk ALL years inside
 			// one process, in descending and in seeded-shuffled order, so results are also judged under other call histories
@@ -51,6 +53,47 @@ func signOf(m, d int) int {
 }
 
 var c20InHistory bool
+
+// c20First is the very first thing a C20 worker does with the library (before the seam warm-up): it asks for the
+// festivals of one weekday-festival day (which one rotates with the chunk number), in a process that has not
+// asked for any festival yet, and judges the answer like any other day's.
+func c20First(w *W, idx int) {
+	days := [][3]int{{2022, 3, 28}, {2024, 5, 12}, {2023, 6, 18}, {2024, 11, 28}, {2022, 5, 8}, {2021, 3, 29}, {1582, 11, 25}, {9998, 5, 10}}
+	d := days[((idx%len(days))+len(days))%len(days)]
+	key := ymd(d[0], d[1], d[2])
+	w.Cur("C20 first call " + key)
+	wd := ref.Weekday(ref.JDN(d[0], d[1], d[2]))
+	occ, total := 0, 0
+	for k := 1; k <= 31; k++ {
+		if ref.Exists(d[0], d[1], k) && ref.Weekday(ref.JDN(d[0], d[1], k)) == wd {
+			total++
+			if k <= d[2] {
+				occ++
+			}
+		}
+	}
+	var want []string
+	if f, ok := SolarUtil.FESTIVAL[fmt.Sprintf("%d-%d", d[1], d[2])]; ok {
+		want = append(want, f)
+	}
+	if f, ok := SolarUtil.WEEK_FESTIVAL[fmt.Sprintf("%d-%d-%d", d[1], occ, wd)]; ok {
+		want = append(want, f)
+	}
+	if occ == total {
+		if f, ok := SolarUtil.WEEK_FESTIVAL[fmt.Sprintf("%d-0-%d", d[1], wd)]; ok {
+			want = append(want, f)
+		}
+	}
+	got := listStrings(calendar.NewSolarFromYmd(d[0], d[1], d[2]).GetFestivals())
+	a, b := append([]string{}, got...), append([]string{}, want...)
+	sort.Strings(a)
+	sort.Strings(b)
+	if strings.Join(a, "|") != strings.Join(b, "|") {
+		w.Violatef("festivals", key+"/first-call-of-the-process", "festivals of %s asked as the first library call of a process = %v, rules give %v", key, got, want)
+	}
+	w.Eval(1)
+	w.Count("first-call-festival-queries", 1)
+}
 
 func c20Run(w *W, c Case) {
 	c20InHistory = c.K == "history"
@@ -162,6 +205,10 @@ func c20Year(w *W, y int) {
 			if (d+m)%4 == 0 && !c20InHistory {
 				rs := []*calendar.Solar{s.NextYear(1), s.NextYear(-3), s.NextMonth(1), s.NextDay(1), s.NextHour(24), s.Next(-1, false), s.GetLunar().GetSolar(),
 					calendar.NewSolarFromJulianDay(s.GetJulianDay() - 0.3/86400)}
+				if d <= 28 && !(y == 1582 && m == 10 && d > 4 && d < 15) {
+					// (route 8) the same fields handed over as a time.Time, whatever calendar Go thinks they belong to
+					rs = append(rs, calendar.NewSolarFromDate(time.Date(y, time.Month(m), d, 7, 8, 9, 0, time.UTC)))
+				}
 				for ri, r := range rs {
 					if r.GetYear() < minYear || r.GetYear() > maxYear {
 						continue
